@@ -36,7 +36,7 @@ func TestWriteRegress(t *testing.T) {
 		"sink-state-value-is-a-list":   mkSink("statematch.v=1,state.v=[]", []string{`["c06.bad"]`, "", `{"v" : 1}`, "", ""}, sinkBodies[0], false, EvCase{`"e"`, `"c06.bad"`, `{"v" : []}`, ""}),
 		"sink-statematch-value-a-list": mkSink("statematch.v=[]", []string{`["c06.bad"]`, "", `{"v" : []}`, "", ""}, sinkBodies[0], false, EvCase{`"e"`, `"c06.bad"`, `{"v" : 1}`, ""}),
 	}
-	dir := filepath.Join("/verif", "regress", "C06")
+	dir := filepath.Join(hx.Root(), "regress", "C06")
 	os.MkdirAll(dir, 0755)
 	for name, c := range cases {
 		f := runCase(c)
@@ -50,5 +50,4 @@ func TestWriteRegress(t *testing.T) {
 			t.Fatal(err)
 		}
 	}
-	_ = hx.Root
 }
